@@ -59,7 +59,7 @@ def run(tier):
     ck = Check("C07", tier, "model_checking")
     flex = ck.flex()
     quick = tier == "quick"
-    L = 4 if quick else 6
+    L = 4 if quick else 7
     rej = H.ops_action([H.OP_REJECT])
     knobs = {"VF_OPMASK": H.opmask(H.OP_REJECT), "VF_FREE_OP": 1, "VF_BUDGET_OP": 99, "VF_BUDGET_DEFAULT": 0, "VF_BUDGET_TOTAL": 0}
     jobs = []
